@@ -211,6 +211,9 @@ func cmdCheck(prop, tier string) int {
 			continue
 		}
 		obls = append(obls, o)
+		if v := lemmaVacuity(o, l); v != nil {
+			obls = append(obls, v)
+		}
 	}
 	timeout := 20
 	thorough := tier == "thorough"
@@ -250,6 +253,9 @@ func cmdCheck(prop, tier string) int {
 				continue
 			}
 			extra = append(extra, o)
+			if v := lemmaVacuity(o, l); v != nil {
+				extra = append(extra, v)
+			}
 		}
 		runObligations(p, extra, timeout, thorough)
 		obls = append(obls, extra...)
